@@ -190,7 +190,14 @@ def run_job(job, unit_c, workdir, incdirs):
         else:
             groups.append(('g%d' % gi, be, names))
     if rest:
-        groups.insert(0, ('default', job.backend, rest))
+        # the remaining (mostly safety/frame) obligations: chunks solved in parallel
+        per = int(job.a.get('chunk', 120))
+        if len(rest) <= per:
+            groups.insert(0, ('default', job.backend, rest))
+        else:
+            nch = (len(rest) + per - 1) // per
+            for c in range(nch):
+                groups.insert(c, ('default%d' % c, job.backend, rest[c::nch]))
 
     def run_one(label, be_name, names, stop_evt=None):
         be = BACKENDS[be_name]
